@@ -74,6 +74,18 @@ PROPS = {
         "trusted_base": COMMON_TB + ["fact extractor /verif/extract (opcode tables, constants)"],
         "assumptions": ["encoding/hex and encoding/json behave as modelled; strings.Split on single spaces"],
     },
+    "C14": {
+        "manifest": {
+            "text": "Lean 4 theorems over a model of bscript/script.go in which every Go index expression is an explicit partial lookup whose failure is the run-time panic: no inspection query (ScriptType, IsP2PK, IsMultiSigOut, IsP2PKHInscription, PublicKeyHash, ParseInscription) panics for any byte string; a script is typed P2PKH iff it is exactly the 25-byte template; typed data only with the OP_RETURN / OP_FALSE OP_RETURN prefix; undecodable scripts are never typed pubkey/multisig/inscription. The model is tied to the code by a differential check (all strings <= 2/3 bytes, every byte mutation / truncation / removal / part replacement incl. zero-length PUSHDATA of each standard template, through every query and json.Marshal(tx.NodeJSON())), whose predicate checks on the implementation's own answers that templates recognised by independent exact recognisers are reported as their type.",
+            "note": "Trusted: Lean kernel + standard axioms, harness/generators/comparer, driver glue and the independent template recognisers of the predicate. 'Template instance is reported as its type' for P2PK/multisig/inscription is decided by the correspondence predicate, not yet by a theorem (partial for that clause).",
+        },
+        "generators": ["C14"],
+        "thorough_seeds": 2,
+        "rule": "all byte strings of length <= 2 (quick) / 3-byte sweep (thorough); instances of the five standard templates and, for each, every single-byte mutation, special-byte substitution, truncation, byte removal and part replacement by zero-length PUSHDATA1/2/4, OP_0, truncated push or nothing; zero-length PUSHDATA forms in every position of short part sequences; 13+-part sequences of empty parts; random strings. Non-trivial = script of >= 2 bytes.",
+        "nontrivial": lambda op, impl: len(op.partition(" ")[2]) >= 4,
+        "trusted_base": COMMON_TB,
+        "assumptions": ["encoding/json marshalling of the node output wrapper only calls ToASM, Addresses, ScriptType and hex on the script (read from txjson_node.go)"],
+    },
 }
 
 NOT_APPLICABLE = {}
